@@ -71,6 +71,12 @@ CHECKS["C12"] = dict(level="model_checking", engine="stateright",
    note="Two parties (the topology's definition). For the dummy VDAF, whose messages are empty, replays are indistinguishable and only kind/undecodable faults are judged. A corrupted-but-decodable payload slipping through a real VDAF has probability ~2^-57.",
    design="§2 C12")
 
+CHECKS["C14"] = dict(level="model_checking", engine="choices",
+   technique="exhaustive enumeration of work-stealing outcomes (all steal patterns) of rayon's bridge_producer_consumer through an oracle in a vendored rayon copy, on the real fold/map/reduce pipeline; byte comparison with the serial gadget/type",
+   text="rayon cannot be rebuilt on loom/shuttle, so the only schedule-dependent decisions of the par_chunks().fold().map().reduce() pipeline -- the split budget (thread count) and whether each right child was stolen -- are answered by the explorer in a vendored copy of rayon 1.12.0 (3 hunks). For logical pool sizes {1,2,3,4,8,16}, chunk counts 1..12 (thorough 16) and gadget calls {1,2,3,7}, EVERY steal pattern is executed on a real 1-thread pool with the real consumers and join_context; the bare ParallelSumMultithreaded gadget (junk-prefilled output) must equal ParallelSum, and Prio3{SumVec,Histogram,MultihotCountVec}Multithreaded must produce byte-identical public share, input shares, verifier shares, verifier message and output shares as the serial types under the same tape. A free-running pass on real 2..16-thread pools (sampling, labelled) and a syntactic scan for shared mutable state guard the assumption.",
+   note="Assumes the outcome depends on the schedule only through which jobs were stolen (true while closures share no mutable state; scan reported in evidence). Memory-ordering effects inside rayon itself are out of scope.",
+   design="§2 C14")
+
 NOT_APPLICABLE = {}
 
 def main():
